@@ -495,3 +495,54 @@ def batch_scenarios(tier="quick"):
         out.append(Scenario("simple iterator: 2 next() calls over 2 buffered points, any read < records, any setting of the four post-processing switches",
                             batch_scenario("simple", sym_options=True), batch_claims, max_paths=6000, time_budget=2400, replayer=rp))
     return out
+
+
+# ------------------------------------------------------------------------------------------------ C08 / C03: iterator construction over any bytes
+def new_scenario(kind):
+    """<iterator>::new with ANY descriptor (file offset, record count: any u64) over ANY device content of <= 3 pages"""
+    def scen(I):
+        init_interp(I)
+        I.use_uf_div = True
+        s = mk_abs_reader(I, max_pages=3, cursor_bits=16)
+        I.last_state = s
+        s.kind = kind
+        s.off = fresh("pc_offset")
+        s.holder["pc"] = mk_pointcloud(I, PROTO, s.off, fresh("pc_records"))
+        cls = {"raw": "PointCloudReaderRaw", "simple": "PointCloudReaderSimple", "queue": "QueueReader"}[kind]
+        s.new = I.call_fn(I.methods[(cls, None, "new")], [Ref(Loc(s.holder, "pc")), s.ref])
+        s.cur = s.holder["r"].cursor
+        return s
+    return scen
+
+
+def new_claims(s, I):
+    """construction is checked for totality only (the implicit 'no panic' claim): when a reader validates the section header or
+    seeks to the data offset — eagerly here, lazily in another implementation — is not part of any property"""
+    return []
+
+
+def _new_extra(model, s):
+    return dict(kind=s.kind, off=mval(model, s.off), records=mval(model, z3.BitVec("pc_records", 64)))
+
+
+def _new_op(pre):
+    recs = ", ".join("crate::Record { name: crate::RecordName::%s, data_type: %s }" % (nm, rust_dtype(d)) for nm, d in PROTO)
+    cls = {"raw": "crate::pc_reader_raw::PointCloudReaderRaw", "simple": "crate::pc_reader_simple::PointCloudReaderSimple", "queue": "crate::queue_reader::QueueReader"}[pre["kind"]]
+    return ("let mut pc = crate::PointCloud::default(); pc.prototype = vec![%s]; pc.records = %d; pc.file_offset = %d; "
+            "match %s::new(&pc, &mut r) { Err(_) => println!(\"VR new=err\"), Ok(_) => println!(\"VR new=ok\") }" % (recs, pre["records"], pre["off"], cls))
+
+
+def _new_rebuild(I, pre, kv):
+    from .models import ErrV, OkV
+    s = native_abs_reader(pre, kv)
+    s.kind, s.off = pre["kind"], U64(pre["off"])
+    s.new = OkV(None) if kv.get("new") == "ok" else ErrV(None)
+    s.cur = s.cursor
+    return s
+
+
+def new_scenarios(tier="quick"):
+    rp = AbsReaderReplay(_new_op, _new_extra, _new_rebuild)
+    kinds = ("queue", "simple") if tier == "quick" else ("queue", "raw", "simple")
+    return [Scenario("%s::new with any descriptor over any device" % {"raw": "PointCloudReaderRaw", "simple": "PointCloudReaderSimple", "queue": "QueueReader"}[k],
+                     new_scenario(k), new_claims, max_paths=600, replayer=rp) for k in kinds]
